@@ -36,7 +36,8 @@ ANCHORS = [
     ('pjrpc/common/v20.py', 'BatchResponse._add_ids'), ('pjrpc/common/v20.py', 'Response.from_json'),
     ('pjrpc/client/client.py', 'AbstractClient._send'), ('pjrpc/client/client.py', 'AbstractAsyncClient._send'),
 ]
-_FAULTS = ['none', 'omit', 'duplicate', 'extra', 'retype', 'bool-id', 'float-id', 'null-id', 'extra-null-id', 'batch-level-error', 'garbage']
+_FAULTS = ['none', 'omit', 'duplicate', 'extra', 'retype', 'bool-id', 'float-id', 'null-id', 'extra-null-id', 'batch-level-error', 'garbage',
+           'omit-two', 'extra-two']
 FLOORS = {'*': {**{f'fault:{f}:{k}': 5 for f in _FAULTS for k in ('sync', 'async')},
                 'permutation:non-identity-accepted': 50, 'single:equal': 10, 'single:different': 10, 'single:null': 10,
                 'single:retyped': 10, 'single:bool': 4, 'strict:off': 100, 'op:send': 200, 'op:call': 200,
@@ -48,6 +49,8 @@ def scheme_ids(ids, n):
         return list(range(0, n))
     if ids == 'str':
         return ['', 'a', 'b', '1'][:n]
+    if ids == 'mixed':
+        return [1, 'a', 2, 'b'][:n]          # caller-built requests may mix integer and string ids
     return list(range(1, n + 1))
 
 
@@ -339,6 +342,15 @@ def mutate(perm_doc, n, fault, k, rng):
     idx = k % len(d)
     if fault == 'omit':
         del d[idx]
+    elif fault == 'omit-two':
+        # two answers missing (with the 'mixed' id scheme: ids of different JSON types)
+        del d[idx]
+        if d:
+            del d[idx % len(d)]
+    elif fault == 'extra-two':
+        # two answers nobody asked for, their ids of different JSON types
+        d.insert(rng.randrange(len(d) + 1), elem(8, True, id_='zz'))
+        d.insert(rng.randrange(len(d) + 1), elem(9, k % 2 == 0, id_=999))
     elif fault == 'duplicate':
         d.insert(rng.randrange(len(d) + 1), dict(d[idx]))
     elif fault == 'extra':
@@ -388,15 +400,18 @@ def gen(ctx):
         masks = list(itertools.product((True, False), repeat=n))
         for perm in perms:
             for mask in (masks if (deep or n <= 3) else [masks[0], masks[-1]] + rng.sample(masks[1:-1], 2)):
-                ids = ('one', 'zero', 'str', 'one')[(k + len(perm)) % 4]
+                ids = ('one', 'zero', 'str', 'one', 'mixed')[(k + len(perm)) % 5]
                 base = [elem_for(ids, i, mask[i - 1]) for i in perm]
-                for fault in ('none', 'omit', 'duplicate', 'extra', 'retype', 'bool-id', 'float-id', 'null-id', 'extra-null-id'):
+                for fault in ('none', 'omit', 'duplicate', 'extra', 'retype', 'bool-id', 'float-id', 'null-id', 'extra-null-id',
+                              'omit-two', 'extra-two'):
+                    if fault == 'omit-two' and n < 2:
+                        continue
                     ks = range(n) if (deep or fault == 'none' or n <= 3) else [rng.randrange(n)]
                     for kk in ([0] if fault == 'none' else ks):
                         doc = mutate(base, n, fault, kk, rng)
                         notif = [[], [0], [n], [0, n + 1]][(k + kk) % 4] if n < 4 else []
                         for strict, is_async, op in modes():
-                            if ids == 'str' and op == 'call':
+                            if ids in ('str', 'mixed') and op == 'call':
                                 op = 'send'
                             prior = ('none', 'none', 'accepted', 'refused')[(k + kk) % 4] if op == 'send' else 'none'
                             yield 'batch', dict(n=n, notif_at=notif, doc=doc, fault=fault, strict=strict, is_async=is_async,
